@@ -60,11 +60,17 @@ class Unsupported(Exception):
 # typed values
 # --------------------------------------------------------------------------
 class TV:
-    __slots__ = ("k", "r", "hint", "opt", "full")
+    __slots__ = ("k", "r", "hint", "opt", "full", "elem")
 
     def __init__(self, k, r, hint=None):
         self.k = k  # 'val' | 'int' | 'bool' | 'str' | 'py'
         self.r = r
+        self.elem = None
+        if hint and "[" in hint:
+            # 'list[T]|none': element / value type T, container type 'list|none'
+            i, j = hint.index("["), hint.rindex("]")
+            self.elem = hint[i + 1:j]
+            hint = hint[:i] + hint[j + 1:]
         # hint: what the value is when it is not None; opt: it may also be None;
         # full: the declared type (used for the type fact)
         self.full = hint
@@ -490,9 +496,19 @@ class Run:
         exception; other units assume well-definedness (A-WD)."""
         if self.in_spec:
             return
-        if self.unit is not None and self.unit.wd:
+        caught = False
+        for names in getattr(self, "try_stack", []):
+            # the code itself handles this exception class: the failure is part
+            # of its logic, so both outcomes are explored
+            if any(nm not in ("*", "Exception", "BaseException") and nm in CLASSES.by_name
+                   and CLASSES.is_sub(exc_cls, nm) for nm in names):
+                caught = True
+        if (self.unit is not None and self.unit.wd) or caught:
             if not self.decide(cond, f"wd:{exc_cls}:{msg}"):
-                raise self.implicit(exc_cls, msg)
+                pr = self.implicit(exc_cls, msg)
+                if caught:
+                    pr.implicit = False
+                raise pr
         else:
             self.assume(cond)
             # vacuity guard: an assumed type fact that contradicts the path
@@ -563,6 +579,8 @@ class Run:
         facts = []
         h = heap or self.heap
         t = h.read(field, idx, facts)
+        if field in ("llen", "dklen"):
+            facts.append(t >= 0)  # lengths are never negative
         if self.in_spec and self.spec_side is not None:
             self.spec_side.extend(facts)
         else:
